@@ -185,6 +185,9 @@ def _run_chunk(args):
     from .__main__ import run_property
     from . import astutil
 
+    from .core import known_match, load_known_findings
+
+    known = load_known_findings()
     base = Model.from_dir(root)
     sources = {m.path: m.source for m in base.modules.values()}
     out = []
@@ -197,7 +200,8 @@ def _run_chunk(args):
         try:
             mm = base.with_source(path, new_src)
             c2 = run_property(prop, mm, "quick")
-            out.append((path, k, desc, "killed" if c2.violations() else "survived"))
+            new = [f for f in c2.violations() if known_match(prop, f, known) is None]
+            out.append((path, k, desc, "killed" if new else "survived"))
         except AnalysisError:
             out.append((path, k, desc, "analysis-error"))
         except Exception as exc:  # a crash of the analyser on a mutant is recorded, never raised
